@@ -1,0 +1,52 @@
+//go:build verif
+
+package resolver
+
+// Contracts for gocv (see /verif/DESIGN.md). Comment-only file.
+
+//@ package resolver
+//@ import ocispec "github.com/opencontainers/image-spec/specs-go/v1"
+//@ import digest "github.com/opencontainers/go-digest"
+//@ import errdef "oras.land/oras-go/v2/errdef"
+//@
+//@ pure inTags(m *Memory, d digest.Digest, r string) bool = d in m.tags && r in m.tags[d]
+//@
+//@ pure resolverRI(m *Memory) bool = m != nil && m.index != nil && m.tags != nil
+//@      && (forall d digest.Digest, r string :: inTags(m, d, r) == (r in m.index && m.index[r].Digest == d))
+//@      && (forall d digest.Digest :: d in m.tags ==> len(m.tags[d]) > 0 && m.tags[d] != nil && alive(m.tags[d]))
+//@      && (forall a, b digest.Digest :: a in m.tags && b in m.tags && a != b ==> m.tags[a] != m.tags[b])
+//@
+//@ func NewMemory
+//@   ensures [C06,C09:ri] resolverRI(result)
+//@   ensures [C06:empty] forall r string :: !(r in result.index)
+//@
+//@ func (*Memory).Resolve
+//@   requires [ri] resolverRI(m)
+//@   ensures [C06:hit] reference in m.index ==> result1 == nil && result0 == m.index[reference]
+//@   ensures [C06:miss] !(reference in m.index) ==> errors.Is(result1, errdef.ErrNotFound)
+//@   modifies alloc, elems[any]
+//@
+//@ func (*Memory).Tag
+//@   requires [ri] resolverRI(m)
+//@   ensures [C06,C09:view] forall r string :: (r in m.index) == (old(r in m.index) || r == reference)
+//@   ensures [C06,C09:view-values] m.index[reference] == desc && (forall r string :: r != reference ==> m.index[r] == old(m.index[r]))
+//@   ensures [C09:tags-consistent] resolverRI(m)
+//@   ensures [C06:no-error] result == nil
+//@
+//@ func (*Memory).Untag
+//@   requires [ri] resolverRI(m)
+//@   ensures [C06,C09:view] forall r string :: (r in m.index) == (old(r in m.index) && r != reference)
+//@   ensures [C06,C09:view-values] forall r string :: r != reference ==> m.index[r] == old(m.index[r])
+//@   ensures [C09:tags-consistent] resolverRI(m)
+//@
+//@ func (*Memory).TagSet
+//@   requires [ri] resolverRI(m)
+//@   ensures [C09:exact] forall r string :: (r in result) == inTags(m, desc.Digest, r)
+//@   ensures [C09:len] len(result) == 0 <==> (forall r string :: !inTags(m, desc.Digest, r))
+//@   modifies alloc, new map[string]unit, new map[string]ocispec.Descriptor
+//@
+//@ func (*Memory).Map
+//@   requires [ri] resolverRI(m)
+//@   ensures [C06:clone] forall r string :: (r in result) == (r in m.index) && (r in result ==> result[r] == m.index[r])
+//@   ensures [C06:fresh] result == nil || !old(alive(result))
+//@   modifies alloc, new map[string]unit, new map[string]ocispec.Descriptor
